@@ -72,12 +72,14 @@ package baseoutput
 //@   modifies evseq, drainseq
 //@   ghostset evseq := evseq + 1
 //@   ghostset drainseq[ref(closedChan)] := evseq + 1
+// awchan(a): the channel of awaitable a (a function of the awaitable: the same channel every time)
+//@ pure func awchan(a int) int
 //@ extern func (s *channels.AwaitableBase) Channel() <-chan struct{}
 //@   modifies nothing
-//@   ensures result != nil
+//@   ensures result != nil && ref(result) == awchan(ref(s))
 //@ extern func (a channels.Awaitable) Channel() <-chan struct{}
 //@   modifies nothing
-//@   ensures result != nil
+//@   ensures result != nil && ref(result) == awchan(ref(a))
 
 //@ pure func sessok(s *clientSession) bool := s != nil && s.conn != nil && s.logger != nil && s.ackerChan != nil && s.inputChannel != nil && s.inputClosed != nil
 //@      && s.ackerAbort != nil && s.ackerEnded != nil && s.onChunkAcked != nil && s.abortConn != nil && metricsok(&s.metrics)
@@ -103,6 +105,9 @@ package baseoutput
 //@ func (session *clientSession) sendChunk(chunk base.LogChunk) (bool, reconnectPolicy)
 //@   requires sessok(session)
 //@   modifies lastsent, sentok, mval
+// (the only part of C02's liveness sentence a contract can carry: what may end the sender's wait) a sender waiting for room in
+// the ACK queue is woken when the acknowledger ends - otherwise an ACK failure with a full queue wedges the session for good
+//@   wakes[a-sender-waiting-for-room-in-the-ack-queue-wakes-when-the-acknowledger-ends] awchan(ref(&session.ackerEnded.AwaitableBase))
 //@   ensures[queued-for-ack-only-after-complete-transmission] result.0 ==> sentok && key(lastsent) == key(chunk.ID) && nsent(session.ackerChan) == old(nsent(session.ackerChan)) + 1
 //@   ensures[not-queued-otherwise] !result.0 ==> nsent(session.ackerChan) == old(nsent(session.ackerChan))
 //@   ensures[forwarded-counted-iff-queued] mval[ref(session.metrics.forwardedCountTotal)] == old(mval[ref(session.metrics.forwardedCountTotal)]) + (result.0 ? 1 : 0)
